@@ -524,9 +524,13 @@ def brief(o):
 
 
 # ---------------------------------------------------------------------------------------------- random histories
-def rand_sub(rng, idbase, pbit):
+def rand_sub(rng, idbase, pbit, lay):
     groups = [(94, 6, '301'), (95, 1, '301'), (1000, 3, '157'), (94, 1, '301'), (5, 2, '137'), (8162, 6, '301'),
               (99, 1, '301'), (1000, 4, '157')]
+    if lay == 'short':
+        # RUN is a 16-bit column there: run*6 must stay below 2^15 (beyond, the order in which the groups are visited
+        # changes, which only matters for WHICH of several failing groups raises first under the known deviations)
+        groups = [(5000, g[1], g[2]) if g[0] > 5400 else g for g in groups]
     rng.shuffle(groups)
     ng = rng.randint(1, 4)
     nf = rng.randint(1, 7)
@@ -566,8 +570,9 @@ def rand_sub(rng, idbase, pbit):
 
 def rand_tree(rng, idbase):
     pbit = 4 if rng.random() < 0.15 else 8
-    return {'sub': {st: rand_sub(rng, idbase + 1000 * (i + 1), pbit) for i, st in enumerate(STYPES)},
-            'pbit': pbit, 'lay': rng.choice(['model', 'model', 'wide', 'short']), 'geom': rng.choice(sorted(GEOM))}
+    lay = rng.choice(['model', 'model', 'wide', 'short'])
+    return {'sub': {st: rand_sub(rng, idbase + 1000 * (i + 1), pbit, lay) for i, st in enumerate(STYPES)},
+            'pbit': pbit, 'lay': lay, 'geom': rng.choice(sorted(GEOM))}
 
 
 def rand_call(rng, tree):
